@@ -54,12 +54,15 @@ pub const LOG_COUNT: u8 = 1;
 pub const LOG_PANIC: u8 = 2;
 pub const LOG_REENTER: u8 = 3;
 pub const LOG_YIELD: u8 = 4;
+/// the logger reports `enabled() == false` for everything (what `log_enabled!` observes)
+pub const LOG_DISABLED: u8 = 5;
 pub static LOG_MODE: AtomicU8 = AtomicU8::new(LOG_OFF);
 pub static LOG_CALLS: AtomicU64 = AtomicU64::new(0);
 pub static LOG_PANICS: AtomicU64 = AtomicU64::new(0);
 pub static LOG_REENTRIES: AtomicU64 = AtomicU64::new(0);
 pub static LOG_YIELDS: AtomicU64 = AtomicU64::new(0);
 pub static LOG_REENTER_BAD: AtomicU64 = AtomicU64::new(0);
+pub static LOG_DISABLED_SETS: AtomicU64 = AtomicU64::new(0);
 
 thread_local! {
     static IN_LOGGER: Cell<bool> = const { Cell::new(false) };
@@ -70,9 +73,12 @@ pub static LOGGER: SimLogger = SimLogger;
 
 impl log::Log for SimLogger {
     fn enabled(&self, _: &log::Metadata) -> bool {
-        true
+        LOG_MODE.load(Ordering::Relaxed) != LOG_DISABLED
     }
     fn log(&self, _rec: &log::Record) {
+        if LOG_MODE.load(Ordering::Relaxed) == LOG_DISABLED {
+            return;
+        }
         LOG_CALLS.fetch_add(1, Ordering::Relaxed);
         if IN_LOGGER.with(Cell::get) {
             return;
